@@ -255,6 +255,24 @@ func (*BaseNode).ReplaceChild
   ensures [parents] forall w addr {par(w)} :: (w != insertee && w != v1) ==> par(w) == old(par(w))
   modifies all(BaseNode.childCount), all(BaseNode.firstChild), all(BaseNode.lastChild), all(BaseNode.parent), all(BaseNode.next), all(BaseNode.prev)
 
+// SortChildren (partial): the comparator is only called, never given a chance to change the tree; afterwards
+// LastChild is the end of the chain that starts at FirstChild (its next link is nil), the list is empty iff it
+// was empty, and the count is untouched.  Not proved: that the chain is a sorted permutation and WF as a whole.
+func (*BaseNode).SortChildren
+  purefunc comparator
+  requires WF()
+  ensures [tail] n.firstChild != nil ==> (n.lastChild != nil && nxt(n.lastChild) == nil)
+  ensures [empty] (n.firstChild == nil) <==> old(n.firstChild == nil)
+  ensures [emptyTail] n.firstChild == nil ==> n.lastChild == old(n.lastChild)
+  ensures [count] n.childCount == old(n.childCount)
+  modifies n.firstChild, n.lastChild, all(BaseNode.next), all(BaseNode.prev)
+  loop 0 inv (sorted == nil ==> current == old(n.firstChild)) && (old(n.firstChild) == nil ==> (current == nil && sorted == nil))
+  loop 0 inv n.lastChild == old(n.lastChild) && n.firstChild == old(n.firstChild) && n.childCount == old(n.childCount)
+  loop 1 inv c != nil && sorted != nil && current != nil
+  loop 1 inv n.lastChild == old(n.lastChild) && n.firstChild == old(n.firstChild) && n.childCount == old(n.childCount)
+  loop 2 inv n.firstChild == sorted && n.childCount == old(n.childCount) && (sorted == nil ==> (c == nil && n.lastChild == old(n.lastChild)))
+  loop 2 inv c == sorted || (n.lastChild != nil && nxt(n.lastChild) == c)
+
 func NewHTMLBlock
   ensures result != nil && fresh(result)
   modifies nothing
